@@ -3,7 +3,7 @@
    the extracted datatypes. *)
 From Coq Require Import ZArith List Floats.
 From Coq Require Import ExtrOcamlBasic ExtrOCamlFloats ExtrOCamlInt63.
-From SC Require Import Num Vec3 Kernel FloatIO Grid Integrator CellCycle Mesh Geometry Forces MeshOps RefineLoop Population Vtk Params Params_gen Output Contact Divider Init.
+From SC Require Import Num Vec3 Kernel FloatIO Grid Integrator CellCycle Mesh Geometry Forces MeshOps RefineLoop Population IterationDefs Iteration_gen Iteration Vtk Params Params_gen Output Contact Divider Init.
 
 Definition kernel_f := kernel NumF.
 
@@ -63,6 +63,11 @@ Definition ops_guards_f := @guards_ok float NumF.
 Definition loop_run_f := @refine_loop float NumF.
 Definition loop_log_f := @loop_log float NumF.
 Definition loop_nb_edges_f := @nb_edges float.
+(* the iteration model runs the phases in the order GENERATED from the source *)
+Definition iter_run := run_iterations run_iteration_phases.
+Definition iter_one := run_iteration run_iteration_phases.
+Definition iter_init := init_state.
+Definition iter_translation_ok := iteration_translation_ok.
 
 (* C08: population bookkeeping *)
 Definition pop_init := init_pop.
@@ -112,7 +117,7 @@ Extraction "model.ml" NumF kernel_f
   geo_repair_f geo_tri_pos_f geo_normal_f geo_area_f geo_volume_f geo_total_area_f geo_centroid_f geo_aabb_f
   mesh_valid_surface_b mesh_valid_dump_b mesh_connected_b
   frc_refresh_f frc_pressure_f frc_tension_f frc_anglereg_f frc_bending_f
-  ops_replay_f ops_guards_f loop_run_f loop_log_f loop_nb_edges_f
+  ops_replay_f ops_guards_f loop_run_f loop_log_f loop_nb_edges_f iter_run iter_one iter_init iter_translation_ok
   pop_init pop_step pop_inv_b
   vtk_write vtk_read
   par_numerical par_cell_types par_translation_ok
